@@ -34,6 +34,7 @@ KINDS = [
     ("hi.first", b"\xef\xbc\xb0ower\n\xbfq\n\xbbr\r\n"),  # first and later lines start with the bytes of a UTF-8 BOM
     ("bom.file", b"\xef\xbb\xbfnu\nxi\n"),
     (os.path.join(".hid", "inner"), b"mu\n"),
+    (os.path.join("sub3", "lf.name"), b"Beta\r\nalpha\n\nalpha\n"),  # same file name AND same word set as the top-level lf.name: still a file of its own
 ]
 DIR_NAMES = ["c18kw", "c18[v2]kw", "c18*kw?", "c18 kw"]
 
@@ -47,7 +48,7 @@ def describe(tier):
             + ("all 2^16 include subsets; " if tier == "thorough" else "") +
             "oracle: the (module, function) set held by get_analyzers / build_registry equals the expected one, each function exactly once. Keywords: "
             f"ALL {2 ** len(KINDS)} subsets of {len(KINDS)} file kinds (empty, blank lines only, LF, CRLF, duplicates and case variants, trailing space, nested "
-            "sub-directory, dots in names, the same file name in two directories, dot-prefixed files and directories; the directory itself named with glob characters / blanks, given as an absolute path and as four relative spellings, and a custom directory literally called 'keywords') are materialised; every non-decoder registry entry is observed behaviourally on a probe text that contains every "
+            "sub-directory, dots in names, the same file name in two directories (with different and with identical word sets), dot-prefixed files and directories; the directory itself named with glob characters / blanks, given as an absolute path and as four relative spellings, and a custom directory literally called 'keywords') are materialised; every non-decoder registry entry is observed behaviourally on a probe text that contains every "
             "word: the (type, value) pairs it reports must be exactly (file name, word) for the non-blank lines of one file, one entry per non-empty file; the "
             "decoder part of a registry built with a custom directory must equal the default decoder part. The shipped keyword directory is walked "
             "independently and compared the same way. states = distinct configurations, transitions = registry entries examined, traces = registries "
@@ -169,7 +170,9 @@ def check_keywords(rec, reg, directory, astd, w, size):
             got_list.append((labels.pop(), tuple(sorted(v for _, v in seen))))
     got_list.sort()
     if got_list != exp_list:
-        ge, eg = [g for g in got_list if g not in exp_list], [e for e in exp_list if e not in got_list]
+        import collections
+        cg, ce = collections.Counter(got_list), collections.Counter(exp_list)
+        ge, eg = sorted((cg - ce).elements()), sorted((ce - cg).elements())
         cause = "missing-file" if len(got_list) < len(exp_list) else ("extra-searcher" if len(got_list) > len(exp_list) else "label-or-words")
         rec.violation("C18.keywords.searchers", f"searchers|{cause}", w,
                       f"keyword searchers observed {core.short(ge, 200)} but the directory defines {core.short(eg, 200)} ({cause})", size)
